@@ -201,9 +201,14 @@ class Session:
             ref.modeldisc = self.disc.clone_silent()
         return ref
 
-    def call(self, op, f, cfl=1.0, tsave=(), stop=None, monitors=None, directives=None):
+    def call(self, op, f, cfl=1.0, tsave=(), stop=None, monitors=None, directives=None, intent=None):
         """make one real call and return the raw observation (floats/bytes), to be ranked by project()"""
         ref = self._reference(op)
+        # constructor-supplied monitors keep their output across calls: remember where this call starts in each of them
+        ctor_base = {}
+        for name, mv in (getattr(self.solver, "monitors", None) or {}).items():
+            out = mv.get("output")
+            ctor_base[name] = len(out._it) if out is not None else 0
         fb = (float(f.time), f.it, f.data[0].tobytes())
         start = len(self.log)
         kw = {}
@@ -211,10 +216,15 @@ class Session:
             kw["monitors"] = monitors
         if directives:
             kw["directives"] = directives
-        tsave = list(tsave)
+        tsave_arg = tsave if isinstance(tsave, list) else list(tsave)     # the caller's own list object is passed through
+        tsave = list(intent["tsave"]) if intent is not None else list(tsave)
+        # what the caller asked for: `intent` when the script shares (possibly already written-to) objects between calls
+        stop_given = dict(intent["stop"]) if intent is not None and intent.get("stop") is not None else (dict(stop) if stop is not None else None)
+        if intent is not None and intent.get("stop", 0) is None:
+            stop_given = None
         self.raised = None
         try:
-            res = getattr(self.solver, op)(f, cfl, tsave, stop=stop, **kw)
+            res = getattr(self.solver, op)(f, cfl, tsave_arg, stop=stop, **kw)
         except Exception as ex:     # an exception raised by flowdyn on an admissible call is an observation
             self.raised = type(ex).__name__ + ": " + str(ex)[:80]
             res = []
@@ -222,7 +232,7 @@ class Session:
         self.last_events = ev
         dtlocal = bool(directives) and "dtlocal" in directives
         raw = dict(op=op, clsname=self.clsname, t0=fb[0], it0=fb[1], b0=fb[2], tsave=tsave,
-                   tot=(stop or {}).get("tottime"), maxit=(stop or {}).get("maxit"),
+                   tot=(stop_given or {}).get("tottime"), maxit=(stop_given or {}).get("maxit"),
                    caller=(float(f.time), f.it, f.data[0].tobytes()) == fb,
                    nit=self.solver.nit(), totnit=self.solver.totnit(), raised=self.raised,
                    res=[(float(r.time), r.it, r.data[0].tobytes()) for r in res], results=res,
@@ -309,14 +319,33 @@ class Session:
             srcs.append(sorted(s))
         raw["srcs"] = srcs
         # monitors
+        raw["_mon_call"] = monitors
+        raw["_ctor_base"] = ctor_base
+        raw["_ctor_mons"] = {k: v for k, v in (getattr(self.solver, "monitors", None) or {}).items() if k in ctor_base}
+        self.refresh_mons(raw)
+        return raw, res
+
+    def refresh_mons(self, raw):
+        """(re)read the monitor outputs of a call: call-supplied monitors, and the entries the constructor-supplied ones
+        gained since the call began.  Re-reading LATER (after other solver objects ran) shows outputs that were replaced or
+        appended to by calls that had nothing to do with this solver"""
         mons = []
-        for name, mv in (monitors or {}).items():
+        for name, mv in (raw["_mon_call"] or {}).items():
             out = mv.get("output")
             if out is None:
                 continue
             mons.append((mv.get("frequency", 10), list(out._it), list(out._time), list(out._value), mv.get("type", name)))
+        for name, mv in raw["_ctor_mons"].items():
+            if raw["_mon_call"] and name in raw["_mon_call"]:
+                continue                       # a call-supplied monitor of the same name takes precedence
+            out = mv.get("output")
+            b = raw["_ctor_base"].get(name, 0)
+            its = list(out._it)[b:] if out is not None else []
+            tms = list(out._time)[b:] if out is not None else []
+            vls = list(out._value)[b:] if out is not None else []
+            mons.append((mv.get("frequency", 10), its, tms, vls, mv.get("type", name)))
         raw["mons"] = mons
-        return raw, res
+        raw["freqs_arg"] = sorted(int(m[0]) for m in mons) if not raw.get("freqs_arg") else raw["freqs_arg"]
 
 
 def project(raws, rid):
